@@ -418,25 +418,30 @@ namespace rvutils::pbo
         {
             const size_t buff_size = 256;
             char buff[buff_size];
+            file.clear();
             auto start_pos = file.tellg();
-            file.seekg(0, std::ios::end);;
-            auto eof = file.tellg();
-            file.seekg(start_pos);
-            int runs = 0;
-            do
+            size_t total = 0;
+            while (true)
             {
                 file.read(buff, buff_size);
-                for (size_t i = 0; i < buff_size; i++)
+                // only what was actually read may be looked at (the file can end inside the buffer)
+                auto got = static_cast<size_t>(file.gcount());
+                for (size_t i = 0; i < got; i++)
                 {
                     if (buff[i] == '\0')
                     {
                         file.clear();
                         file.seekg(start_pos);
-                        return i + (runs * buff_size) + 1;
+                        return total + i + 1;
                     }
                 }
-                runs++;
-            } while (file.tellg() < eof && !file.eof());
+                total += got;
+                if (got < buff_size)
+                { // end of file without terminator
+                    break;
+                }
+            }
+            file.clear();
             file.seekg(start_pos);
             return -1;
         }
@@ -530,6 +535,12 @@ namespace rvutils::pbo
 
             // read in the whole data available into helper struct
             file.read(reinterpret_cast<char*>(&data_mapped), sizeof(header::bin));
+            if (static_cast<size_t>(file.gcount()) != sizeof(header::bin))
+            { // truncated entry
+                file.clear();
+                file.seekg(start_pos);
+                return {};
+            }
             file.clear();
 
 
@@ -1145,13 +1156,11 @@ namespace rvutils::pbo
         }
         pbofile(std::filesystem::path p) : m_good(false)
         {
-            if (std::filesystem::exists(p))
+            // Only opens: a reader must never leave a file behind for a path that does not exist
+            // (use create() to start a new archive).
+            if (std::filesystem::is_regular_file(p))
             {
                 open(p);
-            }
-            else
-            {
-                create(p);
             }
         }
         bool good() const { return m_good; }
@@ -1219,6 +1228,11 @@ namespace rvutils::pbo
             {
                 m_headers.push_back(*opt_header);
             }
+            if (!opt_header.has_value())
+            { // entry table ends without its terminating entry: truncated archive
+                m_good = false;
+                return;
+            }
             m_headers.push_back(*opt_header);
 #if _DEBUG
             DBG_POS = file.tellg();
@@ -1226,12 +1240,19 @@ namespace rvutils::pbo
 
 
             auto offset = file.tellg();
+            file.seekg(0, std::ios::end);
+            auto file_end = file.tellg();
             // Add data-sections to headers
             for (auto &it : m_headers)
             {
                 it.block_data.start = offset;
                 offset += it.size;
                 it.block_data.end = offset;
+                if (offset > file_end)
+                { // the table promises more data than the file holds: truncated or corrupted archive
+                    m_good = false;
+                    return;
+                }
             }
 
             // All fine here, end processing.
